@@ -142,6 +142,20 @@ def run(ctx):
             ctx.problem('oracle', 'Polynomial.grad_val differs from the exact derivative: %s vs %s' % (got_g.tolist(), [str(v) for v in want_g]),
                         inputs={'p': str(prow), 'x': [str(v) for v in xr]}, failing_input_found=True)
             return
+        got_h = np.asarray(p.hess_val(xf), dtype=float)
+        for ii in range(n):
+            for kk in range(n):
+                want = Fraction(0)
+                for a, c in prows:
+                    if a[ii] == 0:
+                        continue
+                    b = list(a)
+                    b[ii] = a[ii] - 1
+                    want += c * a[ii] * dmono(b, xr, kk)
+                if Fraction(float(got_h[ii, kk])) != want:
+                    ctx.problem('oracle', 'Polynomial.hess_val[%d,%d] = %r differs from the exact second derivative %s' % (ii, kk, got_h[ii, kk], want),
+                                inputs={'p': [[[str(x_) for x_ in a], str(c)] for a, c in prow], 'x': [str(v) for v in xr]}, failing_input_found=True)
+                    return
         val = Fraction(float(p(xf)))
         if val != sum(c * mono(a, xr) for a, c in prows):
             ctx.problem('oracle', 'Polynomial.__call__ differs from exact evaluation', inputs={'p': str(prow), 'x': [str(v) for v in xr]},
